@@ -79,6 +79,9 @@ def menuconfig(kconf: "Kconfig", headless: bool = False) -> bool:
     state.conf_changed = conf_changed
     log.note(escape(load_msg))
 
+    # The list was built when the state was created, before the configuration file changed what is visible
+    state.shown = state.shown_nodes(state.cur_menu)
+
     if not state.shown:
         state.show_all = True
         state.shown = state.shown_nodes(state.cur_menu)
